@@ -259,6 +259,12 @@ func runExchange(spec exchangeSpec) exchangeResult {
 				return nil, &net.OpError{Op: "dial", Net: "tcp", Addr: addr(address), Err: os.NewSyscallError("connect", syscall.ECONNREFUSED)}
 			case "timeout":
 				return nil, &net.OpError{Op: "dial", Net: "tcp", Addr: addr(address), Err: timeoutError{}}
+			case "no-descriptors": // the proxy is out of file descriptors: temporary, and no timeout
+				return nil, &net.OpError{Op: "dial", Net: "tcp", Addr: addr(address), Err: os.NewSyscallError("socket", syscall.EMFILE)}
+			case "dns-servfail": // the resolver cannot answer right now: temporary, and no timeout
+				return nil, &net.OpError{Op: "dial", Net: "tcp", Err: &net.DNSError{Err: "server misbehaving", Name: "backend.internal", IsTemporary: true}}
+			case "dns-notfound":
+				return nil, &net.OpError{Op: "dial", Net: "tcp", Err: &net.DNSError{Err: "no such host", Name: "backend.internal", IsNotFound: true}}
 			}
 			a, b := connPair("10.9.9.9:40000", address)
 			mu.Lock()
